@@ -319,6 +319,10 @@ func styleScript(r *lib.Rng, style string, L int) lib.Script {
 		return rep(s, 4096, -1, L/4096+1)
 	case "cut": // the script ends (EOF by exhaustion) before the stream does
 		return rep(s, 1000, -1, L/2000)
+	case "chunk5000":
+		return rep(s, 5000, -1, L/5000+2)
+	case "chunk3000":
+		return rep(s, 3000, -1, L/3000+2)
 	case "empty":
 		return nil
 	}
@@ -512,6 +516,30 @@ func genAll(o *lib.Opts) []Hist {
 		out = exhaustive(out, "exh4:boundary", p, tiny, 4, tail)
 		p = Hist{Stream: content(14000, salt+3), Salt: int64(salt + 3), Script: styleScript(r, "data+eof", 14000)}
 		out = exhaustive(out, "exh4:data+eof", p, tiny, 4, tail)
+	}
+	// grow with an unreleased consumed prefix: X(a), Y(b) without Release over plain chunked sources
+	// (bytes.Reader-like "fits", fixed chunks): the grown buffer must hold b UNREAD bytes behind ri = a
+	for _, st := range []string{"fits", "4096", "chunk5000", "chunk3000", "small"} {
+		L := 12000
+		p := Hist{Stream: content(L, salt+6), Salt: int64(salt + 6), Script: styleScript(r, st, L)}
+		for _, a := range []int{3000, 4096, 1, 4095} {
+			for _, b := range []int{4097, 6000, 8192, 5000} {
+				for _, k1 := range []string{"next", "skip"} {
+					for _, k2 := range []string{"next", "peek", "skip", "rb"} {
+						h := p
+						h.Class = "grow:" + st
+						h.Ops = append([]Op{{k1, a}, {k2, b}}, tail...)
+						out = append(out, h)
+						if thorough || (a == 3000 && k1 == "next") {
+							h.Ops = append([]Op{{k1, a}, {"release", 0}, {k2, b}}, tail...)
+							out = append(out, h)
+							h.Ops = append([]Op{{k1, a}, {"peek", b}, {k2, b}, {"next", L - a - b}}, tail...)
+							out = append(out, h)
+						}
+					}
+				}
+			}
+		}
 	}
 	// bytes readers: exact / spare / power-of-two / zero capacities
 	type bc struct{ L, cap int }
